@@ -4,6 +4,6 @@ set -e
 cd "$(dirname "$0")"
 export CARGO_NET_OFFLINE=true
 mkdir -p work/partials work/replays evidence
-ln -sfn "${VERIF_REPO:-/repo}" work/repo
+./check sync
 cd harness
 cargo build --offline 2>&1 | tail -3
